@@ -116,8 +116,11 @@ RPART_CAP = 6
 def guard_key(st):
     """the guard context of a state: its unit facts about file-system probes.  Raises from
     different guard contexts reach a handler as separate states, so that what a handler
-    does can be judged per context (e.g. roll-back after a rejected vs. a new binding)."""
-    return frozenset((f, p) for f, p in st.facts if f[0] == "probe")
+    does can be judged per context (e.g. roll-back after a rejected vs. a new binding).  Boolean flag locals (`done = False
+    ... done = True`) are part of the context: a handler that branches on such a flag meets each value separately."""
+    flags = frozenset(("flag", k, next(iter(v))[1]) for k, v in st.env.items()
+                      if isinstance(k, str) and len(v) == 1 and next(iter(v)) in (("const", True), ("const", False)))
+    return frozenset((f, p) for f, p in st.facts if f[0] == "probe") | flags
 
 
 class Out:
